@@ -361,7 +361,7 @@ def replay(ctx, path):
     each stored row are re-run through the harness."""
     info = json.load(open(path))
     table, config = info["table"], info.get("config", "std")
-    if table in ("ints", "serde"):
+    if table in ("ints", "serde", "first", "misc"):
         # these tables are cheap and their rows are not individually addressable: re-run the table
         d, findings, n = run_table(ctx, table, config=config, tier="quick", per=20000)
         bad = sorted({c for p_, c, r in findings if p_ == ctx.prop})
